@@ -1,7 +1,7 @@
 (* C05 - setup()/loop() split: run-once prologue, repeated body, configure-before-use.
    Statements only; proofs are in Proofs/C05P.v; the model is Lang/Split.v + Lang/Emit.v. *)
 From Coq Require Import ZArith List Bool.
-From RV Require Import Lang.Split Lang.Emit Proofs.C05P.
+From RV Require Import Lang.Split Lang.Emit Proofs.C05P Lang.EmitPin Proofs.EmitPinP.
 Import ListNotations.
 Open Scope Z_scope.
 
@@ -320,3 +320,89 @@ Theorem C05_every_button_polled_once : forall its,
      mem_name (d_name d) (p_polls (transl its)) = true /\ pin_of (transl its) (d_name d) = [pin]).
 Proof. exact every_button_polled. Qed.
 Print Assumptions C05_every_button_polled_once.
+
+(* ---------------------------------------------------------------- pin EXPRESSIONS (Lang/EmitPin.v) *)
+(* Devices whose pin argument is an expression over the sketch's globals ([pin], [pin + 1]).  The emitted lines
+   mention the expression by its text; the firmware is executed and the monitor sees numeric pins.  [fw] is the
+   emit-and-run machine over requests de-duplicated by a key, assignments, and uses; [static_ok] tracks which
+   pin texts have their CURRENT value configured (an assignment to x forgets every text that mentions x, a request
+   whose key is already in the set configures nothing).  For EVERY key function, key set, environment and
+   configuration history: if the static tracking accepts the text, the executed trace is configured-before-use. *)
+Theorem C05_pin_text_tracking_sound : forall l seen V r cfg,
+  (forall e m, In (e, m) V -> In (peval r e, m) cfg) ->
+  static_ok seen V l = true -> pcbu_go cfg (fw seen r l) = true.
+Proof. exact static_ok_sound. Qed.
+Print Assumptions C05_pin_text_tracking_sound.
+
+(* the sketch emit() makes of a straight-line script (hoisted block evaluated with the static initialisers,
+   prologue with in-place configuration, n passes with the injected polls), with emit()'s keys or any other:
+   inside the guard every numeric pin a command / poll / safe-stop touches was configured before, for all n *)
+Theorem C05_pin_expr_configured_before_use_partial : forall kf p n,
+  pins_tracked kf p n = true -> pcbu (run_sketch kf p n) = true.
+Proof. exact pins_tracked_cbu. Qed.
+Print Assumptions C05_pin_expr_configured_before_use_partial.
+
+(* the guard of a run covers every prefix of it *)
+Theorem C05_pin_tracking_prefix : forall l1 l2 seen V,
+  static_ok seen V (l1 ++ l2) = true -> static_ok seen V l1 = true.
+Proof. exact static_ok_app_l. Qed.
+Print Assumptions C05_pin_tracking_prefix.
+
+(* non-vacuity: [pin = 5; red = Led(pin); red.toggle(); pin += 1; green = Led(pin); green.toggle(); while True:
+   green.toggle()] is inside the guard with emit()'s keys, and pin 6 is configured at green's declaration *)
+Example C05_pin_expr_nonvacuous :
+  pins_tracked kf_real w_advancing 3 = true /\ run_sketch kf_real w_advancing 1 = [PCfg 5 1; PUse 5 true; PCfg 6 1; PUse 6 true; PUse 6 true]%list.
+Proof. split; [exact advancing_in_guard | exact advancing_trace]. Qed.
+Print Assumptions C05_pin_expr_nonvacuous.
+
+(* why the device NAME is part of emit()'s key: with the pin text alone as key the same script - inside the guard,
+   configured-before-use with the real keys - drives pin 6 without any pinMode(6, OUTPUT) *)
+Theorem C05_text_only_key_refuted :
+  exists p n, pins_tracked kf_real p n = true /\ pcbu (run_sketch kf_real p n) = true /\ pcbu (run_sketch kf_text p n) = false.
+Proof. exact text_key_refuted. Qed.
+Print Assumptions C05_text_only_key_refuted.
+
+(* the unchanged emitter, outside the guard (each reproduced on the real code, known_findings.d/C05.json):
+   the key (name, text) is still text: a name re-bound to the same variable after it advanced gets no pinMode *)
+Theorem C05_same_name_same_text_refuted :
+  exists p n, pcbu (run_sketch kf_real p n) = false /\ pins_tracked kf_real p n = false.
+Proof. exact same_name_refuted. Qed.
+Print Assumptions C05_same_name_same_text_refuted.
+
+(* a command evaluates the pin text when it runs, not when the device was declared *)
+Theorem C05_command_reads_pin_variable_late_refuted :
+  exists p n, pcbu (run_sketch kf_real p n) = false /\ pins_tracked kf_real p n = false.
+Proof. exact capture_refuted. Qed.
+Print Assumptions C05_command_reads_pin_variable_late_refuted.
+
+(* the hoisted configuration block reads a pin variable before the prologue assigns it (Buzzer, loop-top Led,
+   DCMotor, Button) *)
+Theorem C05_hoisted_reads_pin_variable_early_refuted :
+  forall p, In p [w_hoisted_buzzer; w_hoisted_looptop; w_hoisted_motor; w_hoisted_button] ->
+  pcbu (run_sketch kf_real p 1) = false /\ pins_tracked kf_real p 1 = false.
+Proof. exact hoisted_refuted. Qed.
+Print Assumptions C05_hoisted_reads_pin_variable_early_refuted.
+
+(* loop() carries no configuration request (loop-top declarations are configured in the hoisted block), so what a pass
+   forgets is forgotten after the first pass: the guard evaluated for TWO passes decides it for every N *)
+Theorem C05_pin_guard_two_passes_decide_all : forall kf p n,
+  pins_tracked kf p 2 = true -> pins_tracked kf p n = true.
+Proof. exact pins_tracked_two_all. Qed.
+Print Assumptions C05_pin_guard_two_passes_decide_all.
+
+(* ... hence configured-before-use of the executed sketch for all N >= 0 passes from one finite check *)
+Theorem C05_pin_expr_configured_before_use_all_passes_partial : forall kf p,
+  pins_tracked kf p 2 = true -> forall n, pcbu (run_sketch kf p n) = true.
+Proof. exact pins_cbu_all_passes. Qed.
+Print Assumptions C05_pin_expr_configured_before_use_all_passes_partial.
+
+(* where the device name in the key is NOT needed: in a stretch of emitted text without assignments (the hoisted block
+   at the top of setup()) the same text has the same value, so with (text, mode) alone as key every request is still
+   honoured by an executed pinMode on its numeric pin - the name matters only across assignments (in-place
+   configuration of prologue Led / RGBLed / Ultrasonic declarations), which is where C05_text_only_key_refuted lives *)
+Theorem C05_text_key_suffices_without_assignments : forall l seen r cfg,
+  noset l = true -> text_keyed l = true ->
+  (forall e m, In (0, e, m) seen -> In (peval r e, m) cfg) ->
+  forall k e m, In (AReq k e m) l -> In (peval r e, m) (cfg_of cfg (fw seen r l)).
+Proof. exact text_key_honours_requests. Qed.
+Print Assumptions C05_text_key_suffices_without_assignments.
